@@ -12,6 +12,7 @@ package main
 
 import (
 	"crypto/tls"
+	"encoding/hex"
 	"encoding/json"
 	"fmt"
 	"io/fs"
@@ -21,6 +22,7 @@ import (
 	"net/url"
 	"os"
 	"path/filepath"
+	"strconv"
 	"strings"
 	"sync"
 	"testing/fstest"
@@ -619,7 +621,8 @@ func c17Run(ci any) (res Result) {
 					if !isRedirect || (loc != want+q && !(bare && loc == want+"?")) {
 						fail("ordinary path %q: expected a redirect (%d) with Location %q, got status %d Location %q", path, effCode, want+q, status, loc)
 					}
-				case c.Code == 0:
+				case effCode == 0:
+					// (effCode, not c.Code: the constructors without config forward whatever Code the case carries)
 					if !nextRan || nextPath != want || (nextURI != want+q && !(bare && nextURI == want+"?")) {
 						fail("ordinary path %q (forward mode): expected the handler to see path %q uri %q, got ran=%v %q %q", path, want, want+q, nextRan, nextPath, nextURI)
 					}
@@ -1365,16 +1368,243 @@ func c17Mutate(r *rand.Rand, ci any) []any {
 	return out
 }
 
+// ---------- Tolerable: differences between implementation and model the property does not speak about ----------
+//
+// What C17 constrains, and therefore what must agree (or hold on the implementation's side by itself):
+//
+//	clause 1 (all four components): a Location that is produced is, as a browser reads it, a path-absolute
+//	  reference without `//`, `/\` or scheme  ->  the two verdict flags of an `R` answer (sameHost, staysOnHost).
+//	clause 2 (slash middlewares, ordinary paths): the target is exactly path±"/" with the query preserved, in
+//	  redirect mode (Location) and in forward mode (what the next handler sees); a path that needs no change is
+//	  left alone.
+//
+// What it does not constrain: WHICH 3xx code carries a redirect; the text of a Location to which only clause 1
+// applies (static routes: e.g. whether the query is repeated; slash middlewares on the hostile, non-ordinary
+// paths: how the leading run is collapsed), as long as the browser's verdict is the same; whether an empty but
+// present query (bare `?`) is kept or dropped; which error status answers a request that is neither redirected
+// nor served; what the next handler sees in forward mode for a non-ordinary path (no redirect is produced).
+//
+// Never tolerated: a different KIND of answer (redirect / handler ran / file served / refused / anything else),
+// a different browser verdict, any deviation from clause 2 on an ordinary path, anything about a request the
+// Skipper took out of the middleware's hands, a panic, a different number of answers.
+
+type c17Ans struct {
+	kind      string // R | N | F | refused | other
+	raw       string // the tokens of the answer
+	code      int    // R
+	loc       string // R
+	f1, f2    string // R: sameHost, staysOnHost
+	path, uri string // N
+}
+
+func c17TolStr(tok string) (string, bool) {
+	if !strings.HasPrefix(tok, "s") {
+		return "", false
+	}
+	b, err := hex.DecodeString(tok[1:])
+	return string(b), err == nil
+}
+
+// c17ParseObs reads `n answer…` (the format of encOut in lean/EchoModel/C17.lean and of serve above)
+func c17ParseObs(line string) ([]c17Ans, bool) {
+	t := strings.Fields(line)
+	if len(t) == 0 {
+		return nil, false
+	}
+	n, err := strconv.Atoi(t[0])
+	if err != nil || n < 0 {
+		return nil, false
+	}
+	t = t[1:]
+	var out []c17Ans
+	for len(t) > 0 {
+		var a c17Ans
+		k := 1
+		switch {
+		case t[0] == "R" && len(t) >= 5:
+			k = 5
+			code, err := strconv.Atoi(t[1])
+			loc, ok := c17TolStr(t[2])
+			if err != nil || !ok || (t[3] != "0" && t[3] != "1") || (t[4] != "0" && t[4] != "1") {
+				return nil, false
+			}
+			a = c17Ans{kind: "R", code: code, loc: loc, f1: t[3], f2: t[4]}
+		case t[0] == "N" && len(t) >= 3:
+			k = 3
+			p, ok1 := c17TolStr(t[1])
+			u, ok2 := c17TolStr(t[2])
+			if !ok1 || !ok2 {
+				return nil, false
+			}
+			a = c17Ans{kind: "N", path: p, uri: u}
+		case t[0] == "F":
+			a.kind = "F"
+		case t[0] == "404" || t[0] == "E":
+			a.kind = "refused"
+		case len(t[0]) > 1 && t[0][0] == 'X':
+			st, err := strconv.Atoi(t[0][1:])
+			if err != nil {
+				return nil, false
+			}
+			a.kind = "other"
+			if st >= 400 && st <= 599 {
+				a.kind = "refused"
+			}
+		default: // "panic", "bad-op", "model-error", a truncated answer
+			return nil, false
+		}
+		a.raw = strings.Join(t[:k], " ")
+		out = append(out, a)
+		t = t[k:]
+	}
+	return out, len(out) == n
+}
+
+// c17TolStep: the request an answer belongs to, and the slash middleware that saw it ("" = none)
+type c17TolStep struct {
+	mw string // add | remove | ""
+	st c17Step
+}
+
+// c17Clause2 evaluates the second clause of the property on ONE answer of the implementation: applies = the
+// clause fixes the answer to this request (an ordinary path through a slash middleware that is not skipped and
+// works with a valid redirect code or forwards); holds = the answer is what the clause demands.
+// forwardVisible: the next handler's view is part of the answer (false in front of a static route).
+func c17Clause2(c *c17Case, ts c17TolStep, a c17Ans, forwardVisible bool) (applies, holds bool) {
+	path, qs := string(ts.st.Path), string(ts.st.Query)
+	effCode := c.Code
+	if c.Ctor == "plain" {
+		effCode = 0
+	}
+	q := ""
+	if qs != "" {
+		q = "?" + qs
+	}
+	bare := ts.st.ForceQuery && qs == ""
+	want, change := "", false
+	if ts.mw == "add" && c17Ordinary(path) && !strings.HasSuffix(path, "/") {
+		want, change = path+"/", true
+	}
+	if ts.mw == "remove" && strings.HasSuffix(path, "/") && c17Ordinary(strings.TrimSuffix(path, "/")) {
+		want, change = strings.TrimSuffix(path, "/"), true
+	}
+	okTarget := func(got string) bool { return got == want+q || (bare && got == want+"?") }
+	switch {
+	case change && effCode >= 300 && effCode <= 308:
+		return true, a.kind == "R" && okTarget(a.loc)
+	case change && effCode == 0:
+		if !forwardVisible {
+			return false, false
+		}
+		return true, a.kind == "N" && a.path == want && okTarget(a.uri)
+	case change: // a RedirectCode that is no redirect code: the property does not say what happens
+		return false, false
+	case c17Ordinary(path) || path == "/":
+		if !forwardVisible {
+			return false, false
+		}
+		return true, a.kind == "N" && a.path == path && a.uri == c17ReqURI
+	}
+	return false, false
+}
+
+func c17Tolerable(ci any, implObs, modelObs string) bool {
+	c, ok := ci.(*c17Case)
+	if !ok {
+		return false
+	}
+	impl, ok1 := c17ParseObs(implObs)
+	model, ok2 := c17ParseObs(modelObs)
+	if !ok1 || !ok2 || len(impl) != len(model) {
+		return false
+	}
+	// which request each answer belongs to (requests without a model line have no answer in Obs: a static
+	// route that was not reached - those answers are all judged alike, so no alignment is needed there)
+	var steps []c17TolStep
+	aligned := false
+	all := append([]c17Step{c.step0()}, c.More...)
+	switch {
+	case c.Comp == "add" || c.Comp == "remove":
+		aligned = true
+		for _, st := range all {
+			steps = append(steps, c17TolStep{c.Comp, st})
+		}
+	case (c.Comp == "static" || c.Comp == "gstatic") && (c.Pre == "add" || c.Pre == "remove"):
+		aligned = true
+		for _, st := range all {
+			if st.Method == "" || st.Method == http.MethodGet {
+				steps = append(steps, c17TolStep{c.Pre, st})
+			}
+		}
+	case c.Comp == "static" || c.Comp == "gstatic":
+	default:
+		return false
+	}
+	if aligned && len(steps) != len(impl) {
+		return false
+	}
+	for i := range impl {
+		a, m := impl[i], model[i]
+		if a.raw == m.raw {
+			continue
+		}
+		// never: another kind of answer (redirect vs not, handler ran vs not, served vs refused)
+		if a.kind != m.kind {
+			return false
+		}
+		slashOnly := c.Comp == "add" || c.Comp == "remove"
+		if aligned {
+			ts := steps[i]
+			skipped := c.Ctor != "plain" && c17Skips(c.Skip, string(ts.st.Path))
+			if skipped && slashOnly {
+				return false // the Skipper's contract (nothing happens) is not ours to loosen
+			}
+			if !skipped {
+				if applies, holds := c17Clause2(c, ts, a, slashOnly); applies {
+					if !holds {
+						return false
+					}
+					// clause 2 holds on the implementation's answer by itself; what is left to differ is the 3xx
+					// code and the bare `?` - and clause 1, checked below for every redirect
+				}
+			}
+		}
+		switch a.kind {
+		case "R":
+			// clause 1: the browser's verdict must be the same; the code and the text are free where clause 2
+			// does not apply (and were checked against clause 2 above where it does)
+			if a.f1 != m.f1 || a.f2 != m.f2 {
+				return false
+			}
+			if a.code < 300 || a.code > 399 || m.code < 300 || m.code > 399 {
+				return false
+			}
+		case "refused":
+			// which error status refuses: free
+		case "N":
+			// forward mode, no redirect produced: free for the non-ordinary paths (the ordinary ones were
+			// checked against clause 2 above); the next handler exists only behind a bare slash middleware
+			if !slashOnly {
+				return false
+			}
+		default: // F answers are equal as tokens; "other" statuses are not ours to judge
+			return false
+		}
+	}
+	return true
+}
+
 func init() {
 	register(&Prop{
-		ID:     "C17",
-		Rule:   "request URLs built from tokens: first char `/` (rarely `\\` or none), optional static route prefix, a leading mix of 0-4 of {/, \\, %2f, %5c, TAB, CR, LF (raw or escaped), other C0 controls, space, DEL, NBSP}, a host-like or tree segment, `..` climbs (plain/escaped) back to a directory for the static components, tails, +/- query; URL.Path/RawPath as a real server would set them when the target parses, set directly otherwise; x {AddTrailingSlash, RemoveTrailingSlash (RedirectCode 300..308, 0 = forward, invalid codes; 1 in 10 built with the constructor without config, 1 in 10 with a Skipper: nil-equivalent DefaultSkipper / always / paths containing 'example'), Echo.Static, Group.Static over two real directory trees} x request method (GET for half of the slash cases and 4/5 of the static cases, else HEAD/POST/PUT/PATCH/DELETE/OPTIONS/PROPFIND/X-CUSTOM/lower-case get; the model ignores the method); static routes: mount point below a literal prefix, the root, or a PATH PARAMETER (`/:site/`, `/:site/assets`, `/:a/:b/`, groups `/:site`, `/g/:site`: the parameter segments filled with {acme, \\example.com, %5Cexample.com, %2Fexample.com, %09%5Cexample.com, empty, ...}), half of them registered through another entry point (Static with a relative root, StaticFS with os.DirFS / MustSubFS / fstest.MapFS, GET or Add with StaticDirectoryHandler with and without path unescaping), 1 in 8 with a slash middleware under e.Pre in front of the route (mostly forwarding); one case in eight is a plain path for the 'ordinary paths' clause; queries include ones url.ParseQuery rejects (`discount=100%`, `%zz`, `a=1;b=2`, `;`, `=`, `&&`, NUL, 300 bytes); 1 request in 5 names another protocol version (HTTP/1.0 - half of them without Host header -, HTTP/2.0, HTTP/0.9), 1 in 10 of the others another Host header, 1 in 20 came over TLS; a quarter of the slash cases and an eighth of the static cases are SEQUENCES of 2-4 requests through one application (the same path with another query / without query, another path with the same query, exact repeats), each request judged on its own; URL parts that are present but empty: a quarter of the query-less targets end in a bare `?` (URL.ForceQuery), 1 in 15 RawPath == Path, 1 in 25 a fragment, 1 in 25 an absolute-form target (URL.Host); 1 static case in 12 asks for the mount point itself without its slash; plus, exhaustively, every string of length 1-4 over {/, \\, TAB, LF, e} starting with / or \\ through both slash middlewares without query, with query and with a bare `?` (1872 cases). non-trivial = a redirect was produced and the unsanitised target (path±/ + query) would be read by a browser as an authority (another host); distinct = distinct model op lines",
-		New:    func() any { return &c17Case{} },
-		Gen:    c17Gen,
-		Run:    c17Run,
-		Shrink: c17Shrink,
-		Mutate: c17Mutate,
-		Known:  func(c any, res Result, modelObs string) string { return "" },
+		ID:        "C17",
+		Rule:      "request URLs built from tokens: first char `/` (rarely `\\` or none), optional static route prefix, a leading mix of 0-4 of {/, \\, %2f, %5c, TAB, CR, LF (raw or escaped), other C0 controls, space, DEL, NBSP}, a host-like or tree segment, `..` climbs (plain/escaped) back to a directory for the static components, tails, +/- query; URL.Path/RawPath as a real server would set them when the target parses, set directly otherwise; x {AddTrailingSlash, RemoveTrailingSlash (RedirectCode 300..308, 0 = forward, invalid codes; 1 in 10 built with the constructor without config, 1 in 10 with a Skipper: nil-equivalent DefaultSkipper / always / paths containing 'example'), Echo.Static, Group.Static over two real directory trees} x request method (GET for half of the slash cases and 4/5 of the static cases, else HEAD/POST/PUT/PATCH/DELETE/OPTIONS/PROPFIND/X-CUSTOM/lower-case get; the model ignores the method); static routes: mount point below a literal prefix, the root, or a PATH PARAMETER (`/:site/`, `/:site/assets`, `/:a/:b/`, groups `/:site`, `/g/:site`: the parameter segments filled with {acme, \\example.com, %5Cexample.com, %2Fexample.com, %09%5Cexample.com, empty, ...}), half of them registered through another entry point (Static with a relative root, StaticFS with os.DirFS / MustSubFS / fstest.MapFS, GET or Add with StaticDirectoryHandler with and without path unescaping), 1 in 8 with a slash middleware under e.Pre in front of the route (mostly forwarding); one case in eight is a plain path for the 'ordinary paths' clause; queries include ones url.ParseQuery rejects (`discount=100%`, `%zz`, `a=1;b=2`, `;`, `=`, `&&`, NUL, 300 bytes); 1 request in 5 names another protocol version (HTTP/1.0 - half of them without Host header -, HTTP/2.0, HTTP/0.9), 1 in 10 of the others another Host header, 1 in 20 came over TLS; a quarter of the slash cases and an eighth of the static cases are SEQUENCES of 2-4 requests through one application (the same path with another query / without query, another path with the same query, exact repeats), each request judged on its own; URL parts that are present but empty: a quarter of the query-less targets end in a bare `?` (URL.ForceQuery), 1 in 15 RawPath == Path, 1 in 25 a fragment, 1 in 25 an absolute-form target (URL.Host); 1 static case in 12 asks for the mount point itself without its slash; plus, exhaustively, every string of length 1-4 over {/, \\, TAB, LF, e} starting with / or \\ through both slash middlewares without query, with query and with a bare `?` (1872 cases). non-trivial = a redirect was produced and the unsanitised target (path±/ + query) would be read by a browser as an authority (another host); distinct = distinct model op lines",
+		New:       func() any { return &c17Case{} },
+		Gen:       c17Gen,
+		Run:       c17Run,
+		Shrink:    c17Shrink,
+		Mutate:    c17Mutate,
+		Known:     func(c any, res Result, modelObs string) string { return "" },
+		Tolerable: c17Tolerable,
 		Extra: func(tier string, seed int64) map[string]any {
 			c17Cleanup()
 			return nil
